@@ -803,7 +803,29 @@ def round_trip(obs, case, regs, specs):
                 obs.violation(key, f'parse(ser(parse(ser(R)))) != parse(ser(R)) for {type(a).__name__} at precision {pe}',
                               first=repr(a)[:600], second=repr(b)[:600], meta1=repr(dict(a.meta)), meta2=repr(dict(b.meta)),
                               visual1=repr(dict(a.visual)), visual2=repr(dict(b.visual)))
-    return s1, r1, len(w1)
+    # history: the regions of one parse are independent objects, and a later parse of the same text does not depend on what
+    # was done to the results of an earlier one (edit the first parse's regions in place, then parse again)
+    _STAGE[0] = 'parse-history'
+    fps = [S.fingerprint(r) for r in r1]
+    ids = {}
+    shared = []
+    for i, r in enumerate(r1):
+        for oid, path in S.mutable_ids(r).items():
+            if oid in ids and ids[oid][0] != i:
+                shared.append((ids[oid], (i, path)))
+            ids.setdefault(oid, (i, path))
+    obs.check(not shared, 'parsed-regions-share-mutable-state', f'regions of one parse share mutable objects: {shared[:3]}', 'parse-history')
+    for r in r1:
+        for k, v in list(dict.items(r.meta)):
+            if isinstance(v, list):
+                v.append('edited-in-place')
+        r.meta['select'] = 0
+        r.visual['color'] = 'edited'
+    r1b = _parse(s1)
+    ok = len(r1b) == len(fps) and all(S.fingerprint(r) == f for r, f in zip(r1b, fps))
+    obs.check(ok, 'parse-depends-on-edits-to-earlier-results', 'parsing the same text again after editing the first parse\'s regions in place gives different regions',
+              'parse-history')
+    return s1, r1b, len(w1)          # the unedited parse
 
 
 def run_case(case, obs):
